@@ -8,6 +8,7 @@ package main
 
 import (
 	"fmt"
+	"github.com/goghcrow/yae/val"
 	"reflect"
 	"strings"
 
@@ -189,6 +190,58 @@ func runC07(r *Run) {
 		te2, err2 := conv.TypeEnvOf(i2)
 		if err1 != nil || err2 != nil {
 			continue
+		}
+		// one raw *val.Env object passed again after a name was re-bound to a value of another type (the check must be
+		// made on every call: the object is mutable)
+		if i%3 == 0 {
+			pan, msg := protect(func() {
+				venv, verr := conv.ValEnvOf(i1)
+				if verr != nil {
+					return
+				}
+				tl2 := &traceLog{}
+				e2 := yae.NewExpr()
+				registerStdFns(e2, tl2)
+				cl, err := e2.Compile(src, te1)
+				if err != nil {
+					return
+				}
+				if _, err := cl(venv); err != nil {
+					return
+				}
+				r.Count("raw-env-reuse histories")
+				// re-bind a number (an unchecked call then reads a str through the wrong cast, which at worst faults; a
+				// composite read through the wrong cast can corrupt the runtime beyond recovery)
+				var cands []envField
+				for _, f := range fs {
+					if o, ok := venv.Get(f.name); ok && o.Type.Kind == types.KNum {
+						cands = append(cands, f)
+					}
+				}
+				if len(cands) == 0 {
+					return
+				}
+				name := cands[r.Rng.Intn(len(cands))]
+				old, _ := venv.Get(name.name)
+				var other *val.Val = val.Str("wrong")
+				if old.Type.Kind == types.KStr {
+					other = val.Num(7)
+				}
+				venv.Put(name.name, other)
+				tl2.ev = nil
+				if _, err := cl(venv); err == nil || len(tl2.ev) > 0 {
+					r.Violate("rebound-environment-accepted", what+fmt.Sprintf(" ; same *val.Env re-bound %s := %s between two calls", name.name, other),
+						fmt.Sprintf("second call: err=%v, %d host calls", err, len(tl2.ev)))
+				}
+				venv.Put(name.name, old)
+				tl2.ev = nil
+				if _, err := cl(venv); err != nil {
+					r.Violate("conforming-environment-rejected", what+" ; same *val.Env after restoring the binding", firstLine(err.Error()))
+				}
+			})
+			if pan {
+				r.Violate("panic", what+" ; raw env reuse", msg)
+			}
 		}
 		conforms := implTypeEnvEquals(te1, te2)
 		switch {
